@@ -42,7 +42,7 @@ def run(tier, seed):
     os.environ['VERIF_C17_ROOT'] = proj
     runner.load_module(HARNESS, 'h_c17_setup').materialise(proj)
     qs = []
-    ncase = 10
+    ncase = 13
     for c in range(ncase):
         slices = ['case == %d' % c]
         for i, pre in enumerate(slices):
@@ -58,10 +58,11 @@ def run(tier, seed):
                      'ImportedName.resolve']
     rep.bounds = ['8 programs with 3..5 alternative definitions of one name (if/elif/else, try/except/else, loops, nested groups that share their '
                   'first definition, from-import and attribute access across a project module) and 2 completion requests whose proposals differ '
-                  'only by letter case',
+                  'only by letter case, 1 completion through a qualified import held by a cached project module, 2 completions on a module that exists in several configured roots',
+                  'every request is issued repeatedly on one Project object (2-3 times) and once more on a new one: all answers are equal',
                   'every permutation of the first three sets of 2..3 elements iterated on the path (6^3 orders); sets of 4 '
                   'elements: 6 of 24 orders']
-    rep.assumptions = ['the name `set` in supp.name/supp.scope/supp.evaluator/supp.assistant is rebound to a set subclass with '
+    rep.assumptions = ['the name `set` in supp.name/supp.scope/supp.evaluator/supp.assistant/supp.project/supp.linter is rebound to a set subclass with '
                        'solver-chosen iteration order; dict order and os.listdir order are not varied',
                        'fresh-process / hash-seed runs are outside the technique']
     for q in qs[:4]:
